@@ -75,11 +75,19 @@ async def explore(tier, seed, m, v):
         renv = sg.gen_env(adv=0.1, fail=0.15)
         # engine with a counting / rewriting error coercer on half of the schemas
         coerced_log = []
-        custom = si % 2 == 1
+        custom = si % 3 == 1
+        stamping = si % 3 == 2
         async def my_coercer(exception, error):
             coerced_log.append(dict(error))
             return {"message": "rewritten: " + str(error.get("message")), "path": error.get("path"), "locations": error.get("locations"), "tag": len(coerced_log)}
-        b = await er.build_engine(sg.model(), renv, engine_kwargs={"error_coercer": my_coercer} if custom else None)
+        stamp_no = [0]
+        async def stamping_coercer(exception, error):
+            # enriches the error IN PLACE (the documented way): what it writes belongs to this error only
+            stamp_no[0] += 1
+            if isinstance(error.get("extensions"), dict): error["extensions"]["stamp"] = stamp_no[0]
+            else: error["extensions"] = {"stamp": stamp_no[0]}
+            return error
+        b = await er.build_engine(sg.model(), renv, engine_kwargs={"error_coercer": my_coercer} if custom else ({"error_coercer": stamping_coercer} if stamping else None))
         for di in range(nper):
             dg = DocGen(sg, rng, op_kinds=("query", "mutation") if sg.mutation else ("query",))
             q, ops, opvars = dg.document(n_ops=rng.choice([1, 1, 2, 3]))
@@ -108,6 +116,12 @@ async def explore(tier, seed, m, v):
                 continue
             calls = list(b.calls)
             pr = shape_problems(q, resp, calls) if not custom else []
+            if stamping:
+                stamps = [(e.get("extensions") or {}).get("stamp") for e in resp.get("errors") or [] if isinstance(e, dict)]
+                if len(set(stamps)) != len(stamps) or any(s_ is None for s_ in stamps): pr.append(f"error entries share what the coercer wrote into ONE of them (stamps {stamps})")
+                elif stamps and max(stamps) != stamp_no[0]: pr.append("an error entry carries a stamp written for an earlier request")
+            elif not custom:
+                if any("stamp" in (e.get("extensions") or {}) for e in resp.get("errors") or [] if isinstance(e, dict)): pr.append("an error of an engine with the default coercer carries data written by another engine's coercer")
             if custom:
                 # every reported error went through the coercer exactly once; its return value is what appears
                 n = len(resp.get("errors") or [])
@@ -131,7 +145,7 @@ async def explore(tier, seed, m, v):
             if "errors" in resp: stats["nontrivial"].add(h)
             if pr:
                 stats["problems"].append({"query": q if isinstance(q, str) else repr(q), "operation_name": opn, "variables": repr(variables)[:300], "response": json.loads(json.dumps(resp, default=str))if True else None, "what": pr[:5], "sdl": print_sdl(b.model)})
-            elif kind in ("valid", "opname", "valid+bytes", "opname+bytes") and m is not None and isinstance(variables, (dict, type(None))) and not custom:
+            elif kind in ("valid", "opname", "valid+bytes", "opname+bytes") and m is not None and isinstance(variables, (dict, type(None))) and not custom and not stamping:
                 real = {"data": enc(resp.get("data")), "errors": er.canon_errors(resp.get("errors")), "calls": calls}
                 req = er.model_request(b, q, opn, variables, None, renv)
                 mod = m.ask(req)
